@@ -86,3 +86,5 @@ MANIFEST = {
         note="shares model and harness with C01",
         design="DESIGN.md section 4 C17, Appendix G.3"),
 }
+
+READY = True
